@@ -81,6 +81,13 @@ runs['rows-t23']['covers'] = ','.join('vc_case_Rows_' + t for t in ROWS_CASES)
 ROWS_RUNS = ['rows-' + t for t in ROWS_CASES]
 ROWS_ASSUME = ["Rows(): every NULL bitmap and every cell of a row lies inside the event body (the preconditions of newBitmap and cellLength at the calls inside the row loop are assumed, i.e. the body is well formed); the two header bitmaps and the column count are in bounds by the unit's precondition"]
 
+# ---- statement classification (C02) ----
+STMT_KW = ['begin', 'commit', 'rollback', 'insert', 'update', 'delete', 'create', 'alter', 'drop', 'truncate', 'rename', 'set']
+for k in STMT_KW:
+    # -bound 12: the only loop is the one of the specification function over the keyword's letters (at most 8)
+    runs['stmt-' + k] = {'pkg': '.', 'func': 'GetStatementCategory', 'case': 'vc_case_Stmt_' + k, 'unwind': 12}
+STMT_RUNS = ['stmt-' + k for k in STMT_KW]
+
 PARSER_OBS = ("binlogEvent_Format,binlogEvent_Rotate,binlogEvent_Query,binlogEvent_TableMap,binlogEvent_Rows,binlogEvent_TableID,"
               "GetStatementCategory,appendInsertEventFromRows,appendUpdateEventFromRows,appendDeleteEventFromRows,newError,Error_msgf,"
               "Streamer_binlogPosition,StatementType_String,NewMysqlTableName")
@@ -191,10 +198,10 @@ props['C01'] = {
 props['C02'] = {
     'level': 'proof',
     'claim': "Loop invariant with ghost state over the real parseEvents (all event sequences, unbounded): grouping state (open transaction, number of buffered changes) matches the statement's step function; the handler is called only at commit points (XID/COMMIT, ROLLBACK with an empty transaction, or a change outside BEGIN..COMMIT), with exactly the buffered changes, at most once per event, and the buffer is empty again after an accepted delivery; ignorable events leave the grouping state untouched.",
-    'note': "Trusted: govc, solvers. Statement classification (GetStatementCategory) is abstract in this unit. " + PARSER_ASSUME[1],
+    'note': "Trusted: govc, solvers. In the parser unit statement classification (GetStatementCategory) is an abstract function of the SQL text; its own 12 units decide that each boundary / DML / DDL keyword is recognised in every mixture of ASCII upper and lower case, followed by a space or the end of the text (strings.IndexByte and strings.ToLower by library contract; the keyword table is read from the package initialiser). Not decided: that a first word which is none of the keywords is classified unknown. " + PARSER_ASSUME[1],
     'technique': GEN + "; inductive loop invariant with ghost variables and hook functions, callback contract at the handler call",
     'assumptions': PARSER_ASSUME,
-    'runs': ['parser'],
+    'runs': ['parser'] + STMT_RUNS,
 }
 props['C03'] = {
     'level': 'proof',
